@@ -14,15 +14,8 @@ theorem reserves_of_not_over (p : Pos) (hno : p.gameOver.1 = false) :
   · cases hno
   · split at hno
     · rename_i h
-      simp only [Bool.and_eq_true, bne_iff_ne, ne_eq] at h
-      obtain ⟨⟨h1, h2⟩, _⟩ := h
-      constructor
-      · apply Classical.byContradiction; intro hn
-        simp only [not_or, Classical.not_not] at hn
-        rw [hn.1, hn.2] at h1; exact h1 (by decide)
-      · apply Classical.byContradiction; intro hn
-        simp only [not_or, Classical.not_not] at hn
-        rw [hn.1, hn.2] at h2; exact h2 (by decide)
+      simp only [Bool.and_eq_true, Bool.or_eq_true, bne_iff_ne, ne_eq] at h
+      exact ⟨h.1.1, h.1.2⟩
     · cases hno
 
 /-- from "any set of road squares that contains `s` and keeps the squares of `used` spans the board" to a
@@ -35,10 +28,11 @@ theorem conclude (basis : Array W) (p : Pos) (wf : WFBoard p) (hh : HeightsOK p)
     (hspanOf : ∀ bits' : W, bits'.getLsbD s = true →
       (∀ k, used.getLsbD k = true → (roadBits p col).getLsbD k = true → bits'.getLsbD k = true) →
       ∃ i k, Conn p.cfg.size (fun x => bits'.getLsbD x = true) i k ∧ Spans p.cfg.size i k) :
-    ∃ m q, p.apply basis m = .ok q ∧ RoadWinFor q col ∧ (groupsOf q col).any (isRoadGroup q.c) = true := by
+    ∃ m q, m.type ≠ Facts.mtPass ∧ p.apply basis m = .ok q ∧ RoadWinFor q col ∧
+      (groupsOf q col).any (isRoadGroup q.c) = true ∧ RoadWF q := by
   have hc2 : col = .white ∨ col = .black := by rw [← hcol]; exact toMove_cases p
   obtain ⟨hs, hst, hcase⟩ := fill_cases basis p wf hh hply col hcol used s hres hfill
-  rcases hcase with ⟨hown, _⟩ | ⟨m, q, j, happ, haft, hj⟩
+  rcases hcase with ⟨hown, _⟩ | ⟨m, q, j, hmt, happ, haft, hj⟩
   · -- the square already is a road square of the side: the road exists, the game would be over
     have hbs : (roadBits p col).getLsbD s = true := (roadBits_bit p col s).mpr ⟨hown, hst⟩
     have := over_of_spans p wf col hc2 (hspanOf _ hbs (fun k _ hk => hk))
@@ -69,8 +63,8 @@ theorem conclude (basis : Array W) (p : Pos) (wf : WFBoard p) (hh : HeightsOK p)
       rcases hj with h | h
       · exact Or.inl h
       · exact Or.inr h.1
-    obtain ⟨w1, w2⟩ := win_of_spans p q wf col hcol j s haft hs hj' (hspanOf _ hbs hkeep)
-    exact ⟨m, q, happ, w1, w2⟩
+    obtain ⟨w1, w2, w3⟩ := win_of_spans p q wf col hcol j s haft hs hj' (hspanOf _ hbs hkeep)
+    exact ⟨m, q, hmt, happ, w1, w2, w3⟩
 
 /-- a partner of the inner loop: a group of the list, or a single flat outside all groups -/
 theorem partner_props (n : Nat) (bits pieces : W) (gs : List W) (o : W)
@@ -95,10 +89,11 @@ theorem threat_real_core (basis : Array W) (p : Pos) (wf : WFBoard p) (hh : Heig
     (hno : p.gameOver.1 = false) (col : Color) (hcol : p.toMove = col)
     (hcount : 0 < (countOne p.c p (groupsOf p col) (own p col &&& ~~~(p.standing ||| p.caps))).1 +
       (countOne p.c p (groupsOf p col) (own p col &&& ~~~(p.standing ||| p.caps))).2) :
-    ∃ m q, p.apply basis m = .ok q ∧ RoadWinFor q col ∧ (groupsOf q col).any (isRoadGroup q.c) = true := by
+    ∃ m q, m.type ≠ Facts.mtPass ∧ p.apply basis m = .ok q ∧ RoadWinFor q col ∧
+      (groupsOf q col).any (isRoadGroup q.c) = true ∧ RoadWF q := by
   have hn := wf.size_ok
   have hc2 : col = .white ∨ col = .black := by rw [← hcol]; exact toMove_cases p
-  have hbm := roadBits_sub p wf col
+  have hbm := roadBits_sub p wf.toRoadWF col
   -- the groups are the big components of the road squares
   obtain ⟨a1, a2⟩ := analyze_groups p wf.analyzed
   have hg : floodGroups (Gen.precompute p.cfg.size) (roadBits p col) = some (groupsOf p col) := by
@@ -145,8 +140,8 @@ theorem threat_real_core (basis : Array W) (p : Pos) (wf : WFBoard p) (hh : Heig
 /-- **C19.** -/
 theorem threat_real_impl (basis : Array W) (p : Pos) (wf : WFBoard p) (hh : HeightsOK p) (hply : 2 ≤ p.move)
     (hno : p.gameOver.1 = false) (hcount : 0 < (countThreats p.c p).forMover p) :
-    ∃ m q, p.apply basis m = .ok q ∧ RoadWinFor q p.toMove ∧
-      (groupsOf q p.toMove).any (isRoadGroup q.c) = true := by
+    ∃ m q, m.type ≠ Facts.mtPass ∧ p.apply basis m = .ok q ∧ RoadWinFor q p.toMove ∧
+      (groupsOf q p.toMove).any (isRoadGroup q.c) = true ∧ RoadWF q := by
   unfold Threats.forMover countThreats at hcount
   rcases toMove_cases p with hw | hb
   · rw [hw] at hcount ⊢
